@@ -17,6 +17,10 @@ CHECKS['C02'] = dict(level='proof',
    text='The change log of the dict backend is proved a faithful record: representation invariant of _ModSequenceMapping preserved by update/expunge (helpers inlined), find_updated returns exactly the uids with a live record >= m split by kind, and every MailboxData mutator (append/copy/move/delete/update) preserves LogInv (logged uid present <=> its live record is an update) and the per-segment guarantee (every presence or flag change gets a record above the highest mod-seq at segment start) at every yield point, for aliased and non-aliased destinations.',
    note='Rely = guarantee of the same five writers (cooperative asyncio scheduling); Message construction and FlagOp.apply are used through assumed/proved-elsewhere models; the step from Agree(S,m0) to convergence through update_selected/add_updates is covered by the bounded scenario run and C01, not yet by a discharged obligation; maildir relies on full rescans (set_messages) and is not covered.',
    ref='6 C02')
+CHECKS['C10'] = dict(level='other',
+   text='Deductive: each operation is proved to be the reference model transition -- FlagOp.apply, PermanentFlags/SessionFlags.intersect, SessionFlags.update, SequenceSet._get_range (RFC meaning of n, *, a:b, reversed, beyond the end), SynchronizedMessages.get_uids/get_all (exactly the addressed messages with their ranks) and the dict MailboxData copy/move/delete/update postconditions with full frames. Bounded: the real server (BaseSession/ConnectionState glue, flatten as a union) is compared with an independently written reference model on all single commands and pairs of a stated alphabet and on seeded longer programs.',
+   note='SequenceSet.flatten enters get_uids/get_all through a ghost denotation (not proved to be the union of _get_range); refinement composes over programs is a paper lemma; maildir is not run; APPEND flags/date only through the bounded run.',
+   ref='6 C10')
 NOT_YET = {}
 def main():
     props = [json.loads(l) for l in open(os.path.join(HERE, 'properties.jsonl'))]
